@@ -605,3 +605,109 @@ package collection
 //@   ensures  ok == (old(qPut[q]) > old(qGot[q])) && implies(ok, element == qSeq[q][old(qGot[q])] && qGot[q] == old(qGot[q]) + 1)
 //@   ensures  implies(!ok, qGot[q] == old(qGot[q])) && qOK(q) && qPut[q] == old(qPut[q])
 //@   modifies q.head, q.count, qGot[q]
+
+// ---------------------------------------------------------------------------------------------
+// C16 Set: the mathematical set is the key set of s.data (the element-type bookkeeping in s.tp only logs).
+// ---------------------------------------------------------------------------------------------
+//@ spec setOK(s *Set) bool = s != nil && s.data != nil
+
+//@ func (s *Set) setType
+//@   property C16
+//@   requires s != nil
+//@   modifies s.tp
+//@ func (s *Set) validate
+//@   property C16
+//@   requires s != nil
+//@   modifies nothing
+
+//@ func (s *Set) add
+//@   property C16
+//@   requires setOK(s)
+//@   ensures  setOK(s) && forall(k.(any), inDom(s.data, k) == (k == i || old(inDom(s.data, k))))
+//@   ensures  len(s.data) == old(len(s.data)) + ite(old(inDom(s.data, i)), 0, 1)
+//@   modifies s.tp, mapof(s.data)
+
+//@ func (s *Set) Add
+//@   property C16
+//@   requires setOK(s)
+//@   ensures  setOK(s) && forall(k.(any), inDom(s.data, k) == (has(i, k) || old(inDom(s.data, k))))
+//@   modifies s.tp, mapof(s.data)
+//@   loop 0: modifies s.tp, mapof(s.data)
+//@   loop 0: invariant setOK(s) && forall(k.(any), inDom(s.data, k) == (visited[k] || old(inDom(s.data, k))))
+
+//@ func (s *Set) Contains
+//@   property C16
+//@   requires setOK(s)
+//@   ensures  result == inDom(s.data, i)
+//@   modifies nothing
+
+//@ func (s *Set) Remove
+//@   property C16
+//@   requires setOK(s)
+//@   ensures  setOK(s) && forall(k.(any), inDom(s.data, k) == (k != i && old(inDom(s.data, k))))
+//@   ensures  len(s.data) == old(len(s.data)) - ite(old(inDom(s.data, i)), 1, 0)
+//@   modifies mapof(s.data)
+
+//@ func (s *Set) Count
+//@   property C16
+//@   requires setOK(s)
+//@   ensures  result == len(s.data)
+//@   modifies nothing
+
+//@ func (s *Set) Keys
+//@   property C16
+//@   requires setOK(s)
+//@   ensures  len(result) == len(s.data) && forall(k.(any), has(result, k) == inDom(s.data, k))
+//@   modifies nothing
+//@   allocates
+//@   loop 0: modifies nothing
+//@   loop 0: invariant len(keys) == nseen && forall(k.(any), has(keys, k) == seen[k])
+
+//@ func NewSet
+//@   property C16
+//@   ensures  fresh(result) && setOK(result) && len(result.data) == 0 && forall(k.(any), !inDom(result.data, k))
+//@   allocates
+//@ func NewUnmanagedSet
+//@   property C16
+//@   ensures  fresh(result) && setOK(result) && len(result.data) == 0 && forall(k.(any), !inDom(result.data, k))
+//@   allocates
+
+//@ func (s *Set) AddInt
+//@   property C16
+//@   requires setOK(s)
+//@   ensures  setOK(s) && forall(x.(int), implies(has(ii, x), inDom(s.data, x))) && forall(k.(any), implies(old(inDom(s.data, k)), inDom(s.data, k)))
+//@   modifies s.tp, mapof(s.data)
+//@   loop 0: modifies s.tp, mapof(s.data)
+//@   loop 0: invariant setOK(s) && forall(x.(int), implies(visited[x], inDom(s.data, x))) && forall(k.(any), implies(old(inDom(s.data, k)), inDom(s.data, k)))
+
+//@ func (s *Set) AddInt64
+//@   property C16
+//@   requires setOK(s)
+//@   ensures  setOK(s) && forall(x.(int64), implies(has(ii, x), inDom(s.data, x))) && forall(k.(any), implies(old(inDom(s.data, k)), inDom(s.data, k)))
+//@   modifies s.tp, mapof(s.data)
+//@   loop 0: modifies s.tp, mapof(s.data)
+//@   loop 0: invariant setOK(s) && forall(x.(int64), implies(visited[x], inDom(s.data, x))) && forall(k.(any), implies(old(inDom(s.data, k)), inDom(s.data, k)))
+
+//@ func (s *Set) AddUint
+//@   property C16
+//@   requires setOK(s)
+//@   ensures  setOK(s) && forall(x.(uint), implies(has(ii, x), inDom(s.data, x))) && forall(k.(any), implies(old(inDom(s.data, k)), inDom(s.data, k)))
+//@   modifies s.tp, mapof(s.data)
+//@   loop 0: modifies s.tp, mapof(s.data)
+//@   loop 0: invariant setOK(s) && forall(x.(uint), implies(visited[x], inDom(s.data, x))) && forall(k.(any), implies(old(inDom(s.data, k)), inDom(s.data, k)))
+
+//@ func (s *Set) AddUint64
+//@   property C16
+//@   requires setOK(s)
+//@   ensures  setOK(s) && forall(x.(uint64), implies(has(ii, x), inDom(s.data, x))) && forall(k.(any), implies(old(inDom(s.data, k)), inDom(s.data, k)))
+//@   modifies s.tp, mapof(s.data)
+//@   loop 0: modifies s.tp, mapof(s.data)
+//@   loop 0: invariant setOK(s) && forall(x.(uint64), implies(visited[x], inDom(s.data, x))) && forall(k.(any), implies(old(inDom(s.data, k)), inDom(s.data, k)))
+
+//@ func (s *Set) AddStr
+//@   property C16
+//@   requires setOK(s)
+//@   ensures  setOK(s) && forall(x.(string), implies(has(ss, x), inDom(s.data, x))) && forall(k.(any), implies(old(inDom(s.data, k)), inDom(s.data, k)))
+//@   modifies s.tp, mapof(s.data)
+//@   loop 0: modifies s.tp, mapof(s.data)
+//@   loop 0: invariant setOK(s) && forall(x.(string), implies(visited[x], inDom(s.data, x))) && forall(k.(any), implies(old(inDom(s.data, k)), inDom(s.data, k)))
